@@ -188,7 +188,7 @@ func PlanFor(prop, tier string) (*Plan, error) {
 func moneyScenarios(tier string) []*Scenario {
 	out := []*Scenario{S1a(tier, true), S1b(tier, "0.5", false), S1b(tier, "3", true), S2a(tier, false), S2b(tier, 0, true), S2b(tier, 2, false)}
 	if tier == "thorough" {
-		out = append(out, S1a(tier, false), S1b(tier, "0.333333333333333333", true), S2a(tier, true), S2b(tier, 1, true))
+		out = append(out, S1a(tier, false), S1b(tier, "0.333333333333333333", true), S2a(tier, true), S2b(tier, 1, true), S1f(tier))
 	}
 	return out
 }
